@@ -5,7 +5,15 @@ package gen
 
 type Rng struct{ s uint64 }
 
-func New(seed uint64) *Rng { return &Rng{s: seed*0x9E3779B97F4A7C15 + 0x1234567} }
+// New: the state is a mixed function of the seed.  (It must not be seed*gamma: U64 advances the
+// state by gamma, so consecutive seeds would walk the same sequence one step apart.)
+func New(seed uint64) *Rng {
+	z := seed ^ 0xD1B54A32D192ED03
+	z = (z ^ (z >> 32)) * 0xD6E8FEB86659FD93
+	z = (z ^ (z >> 32)) * 0xD6E8FEB86659FD93
+	z ^= z >> 32
+	return &Rng{s: z}
+}
 
 func (r *Rng) U64() uint64 {
 	r.s += 0x9E3779B97F4A7C15
